@@ -817,7 +817,20 @@ class CallMixin:
                     elem, lid = self.elem_of(p)
                     out.append(MapPart((p,), elem, ((TRUE, (self.to_shape(elem),)),), lid, False, True))
                 else:
-                    raise Unsupported("map over symbolic sequence")
+                    # map(f, seq) over a symbolic sequence is the generator (f(x) for x in seq)
+                    fr = self.frames[-1]
+                    k = self.new_lid()
+                    fn_name, seq_name, x_name = f"__mapf{k}", f"__mapseq{k}", f"__mapx{k}"
+                    fr.locals[fn_name] = f
+                    fr.locals[seq_name] = Tu((p,))
+                    gen = ast.GeneratorExp(
+                        elt=ast.Call(func=ast.Name(id=fn_name, ctx=ast.Load()),
+                                     args=[ast.Name(id=x_name, ctx=ast.Load())], keywords=[]),
+                        generators=[ast.comprehension(target=ast.Name(id=x_name, ctx=ast.Store()),
+                                                      iter=ast.Name(id=seq_name, ctx=ast.Load()), ifs=[], is_async=0)])
+                    ast.fix_missing_locations(gen)
+                    res = self.comprehension(gen, "gen")
+                    out.extend(self.iter_parts(res))
         return Tu(self.norm_parts(out))
 
     def bi_cast(self, args, kwargs):
